@@ -317,7 +317,7 @@ def compile : Op → List MStep
   | .copy x y => [.incFrom y, .swapDec x]
   | .move x y => [.moveDec x y]
   | .conv x d tmp => [.copyInit tmp d, .moveDec x tmp, .dtorH tmp]
-  | .raw x k => [.incRaw k, .decH x, .storeTop x]
+  | .raw x k => [.incRaw k, .swapDec x]   -- old = ptr; ptr = input; if (old) old->refDec()  (as in the handle assignments)
   | .refInc k => [.incM k]
   | .refDec k => [.decM k]
 
